@@ -97,6 +97,7 @@ pub enum Op {
     Placement,
     IterNth(IterKind, usize, Vec<(bool, usize)>),
     LazyDown(usize, usize, usize),
+    CursorMax(Api, Vec<bool>),
 }
 
 #[derive(Clone, Debug)]
@@ -278,6 +279,7 @@ pub fn parse_op(t: &[&str]) -> Op {
         ["placement"] => Op::Placement,
         ["iter_nth", k, v, p] => Op::IterNth(parse_ik(k), u(v), parse_pat_nth(p)),
         ["lazy_down", d, v, i] => Op::LazyDown(u(d), u(v), u(i)),
+        ["cursor_max", a, p] => Op::CursorMax(parse_api(a), parse_pat_ro(p)),
         _ => panic!("bad op {:?}", t),
     }
 }
